@@ -94,6 +94,7 @@ spec_deep = st.one_of(
     spec_st,
     G.dag_spec(max_models=7, max_chain=4),
     G.ring_spec(modes=["suff", "suff_split", "suff_multi", "dpush"], max_n=7),
+    G.chain_spec(),
 )
 
 
